@@ -52,7 +52,7 @@ func entriesFor(kind string) []string {
 	switch kind {
 	case "pdf":
 		return []string{"PageCount", "Text", "Fragments", "ToMarkdown", "Chunks", "Document", "Analyze", "Lines", "Paragraphs", "Blocks", "ReadingOrder", "Headings", "Lists", "Elements",
-			"IsCharacterLevel", "IsMultiColumn", "ByColumn.Text", "JoinParagraphs.Text", "PreserveLayout.Text", "ExcludeHF.Text", "Pages(1).Text", "PageRange(1,2).Fragments", "Detect", "reader.Images", "reader.Objects"}
+			"IsCharacterLevel", "IsMultiColumn", "ByColumn.Text", "JoinParagraphs.Text", "PreserveLayout.Text", "ExcludeHF.Text", "Pages(1).Text", "PageRange(1,2).Fragments", "Detect", "reader.Images", "reader.Objects", "Extractor.Sequence", "FromReader.Sequence"}
 	case "docx", "odt", "xlsx", "pptx", "epub", "html":
 		return []string{"PageCount", "Text", "ToMarkdown", "Chunks", "Document", "ExcludeHF.Text", "Detect", "Reader.API",
 			// format-mismatched calls: PDF-only methods on non-PDF inputs must return errors
@@ -195,6 +195,37 @@ func runEntry(path, entry string) (er entryResult) {
 		}
 		set(first)
 		er.Msg = fmt.Sprintf("%d calls; %s", calls, er.Msg)
+	case "Extractor.Sequence":
+		// one extractor: the non-terminal probes, then a terminal operation (PageCount and
+		// the Is… probes keep the reader; what they left behind is what Text() starts from)
+		e := tabula.Open(path)
+		_, err := e.PageCount()
+		set(err)
+		e.IsMultiColumn()
+		e.IsCharacterLevel()
+		_, err = e.PageCount()
+		set(err)
+		_, _, err = e.Text()
+		set(err)
+		e.Close()
+	case "FromReader.Sequence":
+		// one caller-owned reader serving several extractions in a row
+		rd, err := reader.Open(path)
+		if err != nil {
+			set(err)
+			return
+		}
+		defer rd.Close()
+		_, _, err = tabula.FromReader(rd).Text()
+		set(err)
+		_, _, err = tabula.FromReader(rd).ToMarkdown()
+		set(err)
+		_, err = tabula.FromReader(rd).PageCount()
+		set(err)
+		_, _, err = tabula.FromReader(rd).ExcludeHeadersAndFooters().Chunks()
+		set(err)
+		_, _, err = tabula.FromReader(rd).Document()
+		set(err)
 	case "reader.Images":
 		// the image path of the low-level API: every image XObject of every page, decoded and converted
 		rd, err := reader.Open(path)
